@@ -366,6 +366,13 @@ def run(ctx):
         yk, y = gen_values(ctx.rng, n)
         cases.append({"kind": "valid", "xkind": xk, "ykind": yk, "x": x, "y": y, "q": gen_queries(ctx.rng, x, 12)})
     cases += [gen_malformed(ctx.rng) for _ in range(nm)]
+    # values scaled by large powers of two, for the correspondence only (the model must follow the source also
+    # where intermediate products under/overflow); their property oracle is scale_search below
+    small = [c for c in cases if c["kind"] == "valid" and 3 <= len(c["x"]) <= 12][: ctx.n(8, 60)]
+    for c in small:
+        for k in (-700, -520, 700):
+            cases.append({"kind": f"scaled:2^{k}", "xkind": c["xkind"], "ykind": c["ykind"], "x": c["x"],
+                          "y": [v * 2.0 ** k for v in c["y"]], "q": c["q"]})
 
     impl = [impl_run(c) for c in cases]
     for c, r in zip(cases, impl):
